@@ -452,6 +452,7 @@ FLAVOURS = {
                       "-fno-sanitize-recover=all", "-fno-omit-frame-pointer", "-DEMBOSS_NO_OPTIMIZATIONS"],
     "gcc": ["g++-12", "-std=c++11", "-O2"],
     "plain": ["clang++-14", "-std=c++11", "-O0"],
+    "gcc0": ["g++-12", "-std=c++11", "-O0"],
 }
 
 RUN_ENV = {"ASAN_OPTIONS": "detect_leaks=0:abort_on_error=0:exitcode=98:allocator_may_return_null=1",
